@@ -41,6 +41,14 @@ extern uint64_t pre_ncmp;
 #define HINT_A (g_pos == g_set_n || !RANK_LT(REG_RANK(g_pos), g_key_rank))
 #define LG_COST_OK(extra) (g_ncmp <= pre_ncmp + 2 * g_lg + (extra))
 
+/* constructors that take a comparator store a copy of it (units define FS_CTOR_HAS_CMP) */
+#ifdef FS_CTOR_HAS_CMP
+#define FS_CTOR_CMP_OK (self->_base0.token == comp->token)
+#define FS_CTOR_REQ V_FRESH(comp, sizeof(*comp))
+#else
+#define FS_CTOR_CMP_OK 1
+#define FS_CTOR_REQ 1
+#endif
 /* a node handle argument: engaged exactly when g_alias, its value being the key; nothing else tracked lives in the node */
 #define NODE_VAL(nh) (&(nh)->_optV._val)
 #define NODE_REQ(nh) (NODE_SHAPE(nh) && g_key_obj == OBJ(nh) && g_key_off == OFF(NODE_VAL(nh)))
